@@ -176,8 +176,8 @@ func genScript(r *hlib.Rand, rows int, failNum, failDen int, kinds []int) [][]in
 		for r.Chance(failNum, failDen) && len(row) < 2 {
 			row = append(row, hlib.Pick(r, kinds))
 		}
-		if r.Chance(1, 4) {
-			row = append(row, kSlow2xx)
+		if r.Chance(1, 3) { // the attempt that succeeds: plain 202 by default, else one of these
+			row = append(row, hlib.Pick(r, []int{kSlow2xx, k2xxShortBody, k2xxResetBody}))
 		}
 		s = append(s, row)
 	}
@@ -218,7 +218,15 @@ func genFwd(r *hlib.Rand, d8 bool) input {
 	}
 	// fault script
 	switch r.Intn(7) {
-	case 0, 1: // no faults
+	case 0: // no faults
+	case 1: // every answer is a 2xx, some with a broken response body; retries disabled or not
+		in.WindowMs = hlib.Pick(r, []int{-1, 300})
+		for i := 0; i < 12; i++ {
+			in.Script = append(in.Script, []int{hlib.Pick(r, []int{k2xx, k2xxShortBody, k2xxResetBody, kSlow2xx})})
+		}
+		if r.Bool() {
+			in.Nop = []int{k2xxShortBody}
+		}
 	case 2: // retries disabled: every failure is a drop
 		in.Script = genScript(r, 12, 1, 2, []int{k4xx, k5xx, kReset, kSlow5xx})
 		if r.Bool() {
@@ -232,6 +240,10 @@ func genFwd(r *hlib.Rand, d8 bool) input {
 		in.Script = genScript(r, 12, 1, 4, []int{k5xx, kReset})
 		if r.Bool() {
 			in.Nop = []int{kReset}
+		}
+		if r.Chance(1, 3) { // one body is accepted with a response body that never arrives
+			in.ClientTimeoutMs = 1000
+			in.Script[0] = append(in.Script[0][:0:0], k2xxStalledBody)
 		}
 	case 6: // the handler is older than the retry window when its first requests fail once: a request's
 		// window is its own, so each of them must be retried (and then succeeds)
